@@ -232,11 +232,15 @@ class GriffeLoader:
             self.expand_wildcards(wildcards_module, external=external)
 
         load_failures: set[str] = set()
-        while unresolved and unresolved != prev_unresolved and iteration < max_iterations:  # type: ignore[operator]
+        # Loading an external package is progress too: the same aliases can be unresolved
+        # after an iteration that brought in the package the next iteration needs.
+        loaded_packages = False
+        while unresolved and (unresolved != prev_unresolved or loaded_packages) and iteration < max_iterations:  # type: ignore[operator]
             prev_unresolved = unresolved - {"0"}
             unresolved = set()
             resolved: set[str] = set()
             iteration += 1
+            packages_before = len(collection)
             for module_name in list(collection.keys()):
                 module = collection[module_name]
                 next_resolved, next_unresolved = self.resolve_module_aliases(
@@ -247,6 +251,7 @@ class GriffeLoader:
                 )
                 resolved |= next_resolved
                 unresolved |= next_unresolved
+            loaded_packages = len(collection) > packages_before
             logger.debug(
                 "Iteration %s finished, %s aliases resolved, still %s to go",
                 iteration,
